@@ -386,23 +386,24 @@ def refusal(viol):
     from quansino.mc.core import MonteCarlo
 
     n = 0
-    for cycles, ivs in itertools.product((1, 2, 3, 4), itertools.product((1, 2, 3), repeat=3)):
+    for cycles, ivs, same in itertools.product((1, 2, 3, 4), itertools.product((1, 2, 3), repeat=3), (False, True)):
         for mins in itertools.product((0, 1, 2, 3), repeat=3):
             with warnings.catch_warnings():
                 warnings.simplefilter("ignore")
                 mc = MonteCarlo(Atoms(), max_cycles=cycles, seed=1)
             total = 0
+            shared = PMove()  # the same move object may be registered under several names
             for i, m in enumerate(mins):
                 n += 1
                 before = list(mc.moves)
                 should_refuse = total + m > cycles
                 try:
-                    mc.add_move(PMove(), criteria=PCrit(), name=NAMES[i], minimum_count=m, interval=ivs[i])
+                    mc.add_move(shared if same else PMove(), criteria=PCrit(), name=NAMES[i], minimum_count=m, interval=ivs[i])
                     refused = False
                 except ValueError:
                     refused = True
                 if refused != should_refuse:
-                    viol.append({"signature": f"C09/add_move/{'over-commit-accepted' if should_refuse else 'valid-move-refused'}", "what": f"cycles={cycles}, minimum counts so far {mins[:i]} (intervals {ivs[:i]}), adding {m} with interval {ivs[i]}: refused={refused}", "replay": {"cycles": cycles, "mins": mins[: i + 1], "intervals": ivs[: i + 1]}})
+                    viol.append({"signature": f"C09/add_move/{'over-commit-accepted' if should_refuse else 'valid-move-refused'}", "what": f"cycles={cycles}, minimum counts so far {mins[:i]} (intervals {ivs[:i]}, same move object: {same}), adding {m} with interval {ivs[i]}: refused={refused}", "replay": {"cycles": cycles, "mins": mins[: i + 1], "intervals": ivs[: i + 1]}})
                 if refused and list(mc.moves) != before:
                     viol.append({"signature": "C09/add_move/table-changed-by-refused-addition", "what": "a refused add_move modified the table", "replay": {}})
                 if not refused:
